@@ -134,33 +134,23 @@ func obsTerm(m *p2p.PeerMessage) string {
 // ---- tables of the opaque decoders ---------------------------------------------
 
 type tables struct {
-	keys, snaps, txs   []string
-	seenK, seenS, seenT map[string]bool
+	keys, snaps, txs []string
 }
 
-func newTables() *tables {
-	return &tables{seenK: map[string]bool{}, seenS: map[string]bool{}, seenT: map[string]bool{}}
-}
+func newTables() *tables { return &tables{} }
 
-// window copies 32 bytes at data[off:] into a zeroed array, as copy() does.
+// key: the 32 bytes copy() takes from data[off:] (zero padded), and CheckKey of them.
 func (t *tables) key(data []byte, off int) {
 	if off < 0 || off > len(data) {
 		return
 	}
 	var k crypto.Key
 	copy(k[:], data[off:])
-	if t.seenK[string(k[:])] {
-		return
-	}
-	t.seenK[string(k[:])] = true
-	t.keys = append(t.keys, "("+vh.Bytes(k[:])+", "+vh.Bool(k.CheckKey())+")")
+	t.keys = append(t.keys, fmt.Sprintf("(%d%%Z, %s)", off, vh.Bool(k.CheckKey())))
 }
 
-func (t *tables) snap(b []byte) {
-	if t.seenS[string(b)] {
-		return
-	}
-	t.seenS[string(b)] = true
+func (t *tables) snap(data []byte, off, n int) {
+	b := data[off : off+n]
 	var s *common.SnapshotWithTopologicalOrder
 	var err error
 	pan, _ := vh.Catch(func() { s, err = common.UnmarshalVersionedSnapshot(b) })
@@ -168,39 +158,37 @@ func (t *tables) snap(b []byte) {
 	if !pan && err == nil && s != nil {
 		v = vh.Some(osnapTerm(s.PayloadHash(), s.Signature != nil))
 	}
-	t.snaps = append(t.snaps, "("+vh.Bytes(b)+", "+v+")")
+	t.snaps = append(t.snaps, fmt.Sprintf("(%d%%Z, %d%%Z, %s)", off, n, v))
 }
 
-func (t *tables) tx(b []byte) bool {
+func (t *tables) tx(data []byte, off, n int) bool {
+	b := data[off : off+n]
 	var err error
 	pan, _ := vh.Catch(func() { _, err = common.UnmarshalVersionedTransaction(b) })
 	ok := !pan && err == nil
-	if !t.seenT[string(b)] {
-		t.seenT[string(b)] = true
-		t.txs = append(t.txs, "("+vh.Bytes(b)+", "+vh.Bool(ok)+")")
-	}
+	t.txs = append(t.txs, fmt.Sprintf("(%d%%Z, %d%%Z, %s)", off, n, vh.Bool(ok)))
 	return ok
 }
 
-// payload walks a transactions payload as the format defines it.
-func (t *tables) payload(d []byte) {
-	if len(d) < 1 {
+// payload walks the transactions payload data[off:] as the format defines it.
+func (t *tables) payload(data []byte, off int) {
+	if len(data)-off < 1 {
 		return
 	}
-	n := int(d[0])
-	d = d[1:]
+	n := int(data[off])
+	off++
 	for i := 0; i < n; i++ {
-		if len(d) < 4 {
+		if len(data)-off < 4 {
 			return
 		}
-		size := int(binary.BigEndian.Uint32(d[:4]))
-		if len(d)-4 < size {
+		size := int(binary.BigEndian.Uint32(data[off : off+4]))
+		if len(data)-off-4 < size {
 			return
 		}
-		if !t.tx(d[4 : 4+size]) {
+		if !t.tx(data, off+4, size) {
 			return
 		}
-		d = d[4+size:]
+		off += 4 + size
 	}
 }
 
@@ -219,30 +207,30 @@ func (t *tables) fill(data []byte) {
 	case p2p.PeerMessageTypeBatchSnapshotAnnouncement:
 		t.key(data, 65)
 		if len(data) >= 97 {
-			t.snap(data[97:])
+			t.snap(data, 97, len(data)-97)
 		}
 	case p2p.PeerMessageTypeBatchSnapshotCommitment:
 		t.key(data, 97)
 	case p2p.PeerMessageTypeBatchSnapshotFinalization:
-		t.snap(data[1:])
+		t.snap(data, 1, len(data)-1)
 	case p2p.PeerMessageTypeTransaction:
-		t.tx(data[1:])
+		t.tx(data, 1, len(data)-1)
 	case p2p.PeerMessageTypeTransactionBundle, p2p.PeerMessageTypeFinalizedTransactionBundle:
-		t.payload(data[1:])
+		t.payload(data, 1)
 	case p2p.PeerMessageTypeBatchTransactionChallenge:
 		if len(data) >= 105 {
-			t.payload(data[105:])
+			t.payload(data, 105)
 		}
 	case p2p.PeerMessageTypeBatchFullChallenge:
 		if len(data) >= 5 {
 			size := int(binary.BigEndian.Uint32(data[1:5]))
 			if size <= len(data)-5 {
-				t.snap(data[5 : 5+size])
+				t.snap(data, 5, size)
 				off := 5 + size
 				if len(data)-off >= 64 {
 					t.key(data, off)
 					t.key(data, off+32)
-					t.payload(data[off+64:])
+					t.payload(data, off+64)
 				}
 			}
 		}
@@ -250,38 +238,41 @@ func (t *tables) fill(data []byte) {
 }
 
 func (t *tables) terms() (string, string, string) {
-	return vh.List(t.keys, "(list N * bool)"), vh.List(t.snaps, "(list N * option osnap)"), vh.List(t.txs, "(list N * bool)")
+	return vh.List(t.keys, "(Z * bool)"), vh.List(t.snaps, "(Z * Z * option osnap)"), vh.List(t.txs, "(Z * Z * bool)")
 }
 
 // ---- running the parser ------------------------------------------------------------
 
-// runParse parses data with the real code, emits the model case, applies the
-// never-panics clause and returns the message.
-func runParse(c *vh.Ctx, cs Case, kind string, version uint8, data []byte, model bool) (*p2p.PeerMessage, error, bool) {
-	var m *p2p.PeerMessage
-	var err error
-	pan, pv := vh.Catch(func() { m, err = p2p.VerifParseNetworkMessage(version, append([]byte(nil), data...)) })
-	obs := vh.Err(msgT)
+// parseObs parses data with the real code and prints the observation.
+func parseObs(version uint8, data []byte) (m *p2p.PeerMessage, err error, pan bool, pv any, obs string) {
+	pan, pv = vh.Catch(func() { m, err = p2p.VerifParseNetworkMessage(version, append([]byte(nil), data...)) })
+	obs = vh.Err(msgT)
 	if pan {
 		obs = vh.Pan(msgT)
 	} else if err == nil {
 		obs = vh.Ok(obsTerm(m))
 	}
-	term := ""
-	if model {
-		tb := newTables()
-		tb.fill(data)
-		k, s, t := tb.terms()
-		term = vh.App("CParse", vh.NU(uint64(version)), vh.Bytes(data), k, s, t, obs)
-	}
-	key := kind + "|" + hashKey(data)
-	c.Case(kind, key, !pan && err == nil, cs, term)
+	return
+}
+
+func parseOracle(c *vh.Ctx, cs Case, data []byte, m *p2p.PeerMessage, err error, pan bool, pv any) {
 	if pan {
 		c.Fail("parse-panics", fmt.Sprintf("parseNetworkMessage panicked on a %d-byte message of type %d: %v", len(data), first(data), pv), cs)
 	} else if err == nil && m == nil {
 		c.Fail("parse-nil", "parseNetworkMessage returned neither a message nor an error", cs)
 	}
-	return m, err, pan
+}
+
+// runParse parses data with the real code, emits the model case and applies
+// the never-panics clause.
+func runParse(c *vh.Ctx, cs Case, kind string, version uint8, data []byte) {
+	m, err, pan, pv, obs := parseObs(version, data)
+	tb := newTables()
+	tb.fill(data)
+	k, s, t := tb.terms()
+	term := vh.App("CParse", vh.NU(uint64(version)), vh.Bytes(data), k, s, t, obs)
+	c.Case(kind, kind+"|"+hashKey(data), !pan && err == nil, cs, modelTerm(c, term))
+	parseOracle(c, cs, data, m, err, pan, pv)
 }
 
 func first(d []byte) int {
@@ -336,8 +327,8 @@ func genSnapshot(r *vh.Rand, signed bool) *common.Snapshot {
 	if r.Chance(3, 4) {
 		s.RoundNumber = 1 + r.U64()>>uint(r.Intn(64))
 		s.References = &common.RoundLink{Self: hash(r), External: hash(r)}
-		n = r.Range(1, 4)
-		if r.Chance(1, 20) {
+		n = r.Range(1, 3)
+		if r.Chance(1, 40) {
 			n = r.Range(200, 255)
 		}
 	}
@@ -354,14 +345,14 @@ func genSnapshot(r *vh.Rand, signed bool) *common.Snapshot {
 
 func genTx(r *vh.Rand) *common.VersionedTransaction {
 	tx := common.NewTransactionV5(hash(r))
-	ni := r.Range(1, 3)
+	ni := r.Range(1, 2)
 	for i := 0; i < ni; i++ {
 		tx.AddInput(hash(r), uint(r.Intn(8)))
 	}
-	no := r.Range(1, 3)
+	no := r.Range(1, 2)
 	for i := 0; i < no; i++ {
 		out := &common.Output{Type: common.OutputTypeScript, Amount: common.NewInteger(uint64(1 + r.Intn(1000000))), Script: common.NewThresholdScript(1)}
-		nk := r.Range(1, 3)
+		nk := r.Range(1, 2)
 		for j := 0; j < nk; j++ {
 			k := validKey(r.Intn(64))
 			out.Keys = append(out.Keys, &k)
@@ -370,13 +361,13 @@ func genTx(r *vh.Rand) *common.VersionedTransaction {
 		tx.Outputs = append(tx.Outputs, out)
 	}
 	if r.Bool() {
-		tx.Extra = r.Bytes(r.Intn(100))
+		tx.Extra = r.Bytes(r.Intn(40))
 	}
 	ver := tx.AsVersioned()
 	if r.Chance(3, 4) {
 		for i := 0; i < ni; i++ {
 			m := map[uint16]*crypto.Signature{}
-			for j := 0; j < r.Range(1, 2); j++ {
+			for j := 0; j < 1; j++ {
 				var sg crypto.Signature
 				copy(sg[:], r.Bytes(64))
 				m[uint16(j)] = &sg
@@ -700,7 +691,7 @@ func runBuild(c *vh.Ctx, cs Case) {
 		if !pan {
 			obs = vh.Ok(vh.Bytes(out))
 		}
-		c.Case(kind, fmt.Sprintf("%s|%d|%d", kind, cs.Seed, cs.N), !pan, cs, vh.App("CBuild", term, obs))
+		c.Case(kind, fmt.Sprintf("%s|%d|%d", kind, cs.Seed, cs.N), !pan, cs, modelTerm(c, vh.App("CBuild", term, obs)))
 		if pan != (cs.N > common.SnapshotTransactionsMaximum) {
 			c.Fail("payload-builder-guard", fmt.Sprintf("buildTransactionsPayload on %d transactions: panicked=%v (%v)", cs.N, pan, pv), cs)
 		}
@@ -716,7 +707,7 @@ func runBuild(c *vh.Ctx, cs Case) {
 		if !pan {
 			obs = vh.Ok(vh.Bytes(out))
 		}
-		c.Case(kind, fmt.Sprintf("%s|%d|%d", kind, cs.Seed, cs.N), !pan, cs, vh.App("CBuild", term, obs))
+		c.Case(kind, fmt.Sprintf("%s|%d|%d", kind, cs.Seed, cs.N), !pan, cs, modelTerm(c, vh.App("CBuild", term, obs)))
 		if pan {
 			c.Fail("syncpoints-builder-panics", fmt.Sprintf("marshalSyncPoints panicked on %d points: %v", cs.N, pv), cs)
 			return
@@ -731,12 +722,7 @@ func runBuild(c *vh.Ctx, cs Case) {
 	if !pan {
 		obs = vh.Ok(vh.Bytes(out))
 	}
-	bterm := ""
-	if term != "" {
-		bterm = vh.App("CBuild", term, obs)
-	}
-	c.Case(kind, fmt.Sprintf("%s|%d|%d|%d", kind, cs.Seed, cs.N, cs.Bad), !pan, cs, bterm)
-	// documented builder limits: more than 255 transactions, more than 1024 commitments, an over-long relayed message
+	// documented builder limits: more than 255 transactions, more than 1024 commitments
 	wantPanic := false
 	switch cs.Kind {
 	case "txchallenge", "fullchallenge", "bundle", "finalbundle":
@@ -744,20 +730,45 @@ func runBuild(c *vh.Ctx, cs Case) {
 	case "commitments":
 		wantPanic = cs.N > 1024
 	}
-	if pan != wantPanic {
-		c.Fail("builder-guard", fmt.Sprintf("%s builder with n=%d: panicked=%v (%v)", cs.Kind, cs.N, pan, pv), cs)
+	key := fmt.Sprintf("%s|%d|%d|%d|%d", kind, cs.Seed, cs.N, cs.Bad, cs.Cut)
+	if pan {
+		bterm := ""
+		if term != "" {
+			bterm = vh.App("CBuild", term, obs)
+		}
+		c.Case(kind, key, false, cs, modelTerm(c, bterm))
+		if !wantPanic {
+			c.Fail("builder-guard", fmt.Sprintf("%s builder with n=%d panicked: %v", cs.Kind, cs.N, pv), cs)
+		}
 		return
 	}
-	if pan {
+	if wantPanic {
+		c.Case(kind, key, false, cs, "")
+		c.Fail("builder-guard", fmt.Sprintf("%s builder with n=%d did not refuse", cs.Kind, cs.N), cs)
 		return
 	}
 	data := out
+	var extra []byte
 	if cs.Cut > 0 && cs.Cut-1 < len(data) {
 		data = data[:cs.Cut-1]
+	} else if cs.Cut > 0 {
+		cs.Cut = 0
 	} else if cs.Cut < 0 {
-		data = append(append([]byte(nil), data...), r.Bytes(-cs.Cut)...)
+		extra = r.Bytes(-cs.Cut)
+		data = append(append([]byte(nil), data...), extra...)
 	}
-	m, err, ppan := runParse(c, cs, "parse:"+kind, uint8(r.Intn(4)), data, true)
+	version := uint8(r.Intn(4))
+	m, err, ppan, ppv, pobs := parseObs(version, data)
+	tb := newTables()
+	tb.fill(data)
+	tk, ts, tt := tb.terms()
+	cut := 0
+	if cs.Cut > 0 {
+		cut = cs.Cut
+	}
+	bterm := vh.App("CBuildParse", term, obs, vh.ZI(int64(cut)), vh.Bytes(extra), vh.NU(uint64(version)), tk, ts, tt, pobs)
+	c.Case(kind, key, !ppan && err == nil, cs, modelTerm(c, bterm))
+	parseOracle(c, cs, data, m, err, ppan, ppv)
 	if ppan {
 		return
 	}
@@ -776,6 +787,12 @@ func runBuild(c *vh.Ctx, cs Case) {
 		if err == nil {
 			c.Note("an empty pre-commitments message was accepted")
 		}
+		return
+	}
+	if cs.Kind == "fullchallenge" && cs.N == 0 && len(out)-1 < 256 {
+		// a full challenge without transactions around a round-0 snapshot (no references) is
+		// 238 bytes, below the parser's 256-byte minimum; the leader always attaches the
+		// snapshot's transactions (at least one), which lifts the message above it.
 		return
 	}
 	if cs.Kind == "authentication" && cs.N > 0 && cs.N != p2p.VerifAuthenticationMessageSize {
@@ -805,10 +822,10 @@ func runPayload(c *vh.Ctx, cs Case, data []byte, want []*common.VersionedTransac
 		obs = vh.Ok(bl(txBytes(txs)))
 	}
 	tb := newTables()
-	tb.payload(data)
+	tb.payload(data, 0)
 	_, _, tt := tb.terms()
 	c.Case("payload", "payload|"+hashKey(data), !pan && err == nil, cs,
-		vh.App("CParseTxsPayload", vh.Bytes(data), tt, obs))
+		modelTerm(c, vh.App("CParseTxsPayload", vh.Bytes(data), tt, obs)))
 	if pan {
 		c.Fail("payload-parse-panics", fmt.Sprintf("parseTransactionsPayload panicked: %v", pv), cs)
 		return
@@ -829,7 +846,7 @@ func runPoints(c *vh.Ctx, cs Case, data []byte, want []*p2p.SyncPoint) {
 		obs = vh.Ok(pointsTerm(ps))
 	}
 	c.Case("points", "points|"+hashKey(data), !pan && err == nil, cs,
-		vh.App("CUnmarshalPoints", vh.Bytes(data), obs))
+		modelTerm(c, vh.App("CUnmarshalPoints", vh.Bytes(data), obs)))
 	if pan {
 		c.Fail("points-parse-panics", fmt.Sprintf("unmarshalSyncPoints panicked: %v", pv), cs)
 		return
@@ -856,7 +873,7 @@ func run(c *vh.Ctx, cs Case) {
 		if kind == "" {
 			kind = "parse"
 		}
-		runParse(c, cs, kind, cs.V, data, true)
+		runParse(c, cs, kind, cs.V, data)
 	case "build":
 		runBuild(c, cs)
 	case "points":
@@ -1062,24 +1079,24 @@ func genBuild(c *vh.Ctx) Case {
 	case "commitment":
 		cs.N = r.Intn(6)
 	case "txchallenge", "fullchallenge", "bundle", "finalbundle", "payload":
-		cs.N = r.Intn(5)
-		if r.Chance(1, 40) {
+		cs.N = r.Intn(4)
+		if r.Chance(1, 60) {
 			cs.N = r.Range(200, 255)
 		}
 	case "graph", "syncpoints":
-		cs.N = r.Intn(8)
-		if r.Chance(1, 40) {
+		cs.N = r.Intn(5)
+		if r.Chance(1, 60) {
 			cs.N = r.Range(50, 120)
 		}
 	case "commitments":
-		cs.N = r.Range(1, 8)
-		if r.Chance(1, 30) {
+		cs.N = r.Range(1, 5)
+		if r.Chance(1, 40) {
 			cs.N = r.Range(500, 1024)
 		}
 	case "consumers":
 		cs.N = r.Intn(2)
 	case "relay":
-		cs.N = r.Intn(200)
+		cs.N = r.Intn(120)
 	}
 	np := 0
 	switch kind {
@@ -1110,7 +1127,10 @@ func genRandomParse(c *vh.Ctx) Case {
 	if r.Chance(1, 10) {
 		t = byte(r.Intn(256))
 	}
-	n := r.Intn(320)
+	n := r.Intn(300)
+	if r.Chance(2, 3) {
+		n = []int{0, 1, 31, 32, 33, 63, 64, 65, 66, 69, 70, 71, 78, 79, 80, 96, 98, 99, 100, 104, 105, 106, 127, 128, 129, 136, 137, 138, 160, 161, 255, 256, 257}[r.Intn(33)] + r.Intn(2)
+	}
 	d := append([]byte{t}, r.Bytes(n)...)
 	switch r.Intn(4) {
 	case 0: // plausible internal length fields
@@ -1210,13 +1230,20 @@ func main() {
 		return
 	}
 	validKey(1100)
+	// the model side costs about 80 microseconds of coqc per byte of a case: the corpus and the
+	// guard cases always go to the model, the random stream is sampled to a text budget.
+	modelBudget = c.Scale(2, 60) << 20
 	for _, cs := range corpus() {
 		run(c, cs)
 	}
 	for _, cs := range guards(c) {
 		run(c, cs)
 	}
-	n := c.Scale(4000, 150000)
+	n := c.Scale(6000, 200000)
+	modelEvery = 3
+	if c.Tier == "search" {
+		modelEvery = 30
+	}
 	for i := 0; i < n; i++ {
 		switch c.Rng.Intn(10) {
 		case 0, 1, 2, 3:
@@ -1230,6 +1257,30 @@ func main() {
 	c.Finish()
 	_ = big.NewInt
 	_ = strings.Join
+}
+
+// modelTerm drops the Coq term of a case whose text is too large to evaluate
+// inside coqc at a reasonable cost; such a case is checked by the oracle only.
+const maxTerm = 40 << 10
+
+var modelBudget = 0 // bytes of Coq text still available for model cases
+var modelEvery, modelTick = 1, 0
+
+func modelTerm(c *vh.Ctx, t string) string {
+	if t == "" {
+		return ""
+	}
+	if len(t) > maxTerm {
+		c.Count("oracle-only(large)")
+		return ""
+	}
+	modelTick++
+	if modelTick%modelEvery != 0 || modelBudget < len(t) {
+		c.Count("oracle-only(sampled)")
+		return ""
+	}
+	modelBudget -= len(t)
+	return t
 }
 
 func hashKey(data []byte) string {
